@@ -36,16 +36,21 @@ def showCode (e : RErr) : String :=
   | some c => toString c
   | none => "?"
 
+def isPanicCode (e : RErr) : Bool :=
+  match e with
+  | .execution c => 1000001 ≤ c ∧ c ≤ 1000003
+  | _ => false
+
 def showRes (r : Res) : String :=
   match r with
   | .ok v => "ok " ++ v.show
-  | .error e => "err " ++ e.name ++ " " ++ showCode e
+  | .error e => if isPanicCode e then "unspecified" else "err " ++ e.name ++ " " ++ showCode e
 
 /-- one-word form used inside `conc` lines -/
 def resWord (r : Res) : String :=
   match r with
   | .ok v => "ok:" ++ v.show
-  | .error e => "err:" ++ e.name ++ ":" ++ showCode e
+  | .error e => if isPanicCode e then "unspecified" else "err:" ++ e.name ++ ":" ++ showCode e
 
 def funcsJ (reg : Reg) : J :=
   .obj (reg.funcs.map fun (k, f) =>
@@ -249,32 +254,38 @@ def codeOf (e : RErr) : Nat := (e.code Gen.Registry.registryErrorCode Gen.Regist
 def notFoundCode : Nat := (lookupStr "MethodNotFound" Gen.Registry.errorCodes).getD 0
 
 /-- `recorded` = what the dependency's decoder gave for these bytes (from the op line). -/
-def mountObs (st : St) (path : List Char) (fmt : Nat) (body : Bytes) (recorded : Option J) : St × String :=
+def mountObs (st : St) (lookup path : List Char) (fmt : Nat) (body : Bytes) (recorded : Option J) : St × String :=
   let dec : Decoders := ⟨fun _ => recorded, fun _ => recorded, fun _ => match recorded with
     | some (.str s) => some s
     | _ => none⟩
-  match st.reg.mountHandle dec codeOf notFoundCode recheck st.prefixes path fmt body with
+  match (routerFind st.prefixes lookup).map fun pre =>
+      st.reg.handleAt dec codeOf notFoundCode recheck pre path fmt body with
   | none => (st, "none")
   | some (reg', resp) =>
     let s := match resp.ec, resp.body with
       | 0, some v => "ok " ++ v.show
-      | ec, _ => "err " ++ toString ec
+      | ec, _ => if 1000001 ≤ ec ∧ ec ≤ 1000003 then "unspecified" else "err " ++ toString ec
     ({ st with reg := reg' }, s ++ " c" ++ toString reg'.log.length)
 
 def step (st : St) (ws : List String) : St × String :=
   match ws with
   | ["reset", _] => ({ st with reg := {} }, "")
-  | "router" :: _ :: ps =>
+  | "router" :: _ :: _ :: _ :: ps =>
     match ps.mapM parseStrWord with
     | some ps => ({ st with prefixes := ps }, "")
     | none => (st, "bad-op")
   | ["dump", idx] => (st, joinSp [idx, "dump", dumpWords st.reg])
-  | ["req", idx, p, fmt, hex, dec] =>
+  | ["req", idx, p, q, _via, _hdr, fmt, hex, dec] =>
+    -- lookup path, the message's query (`=` the same, `!` not UTF-8: the handler then sees ""), entry point and
+    -- header fields (no influence), format code, body bytes, recorded decoder outcome
     match parseStrWord p, fmt.toNat?, bytesOfHex hex,
         (if dec = "!" ∨ dec = "-" then some none else (J.parse dec).map some) with
-    | some path, some fmt, some body, some recorded =>
-      let (st', s) := mountObs st path fmt body recorded
-      (st', idx ++ " " ++ s)
+    | some lookup, some fmt, some body, some recorded =>
+      match (if q = "=" then some lookup else if q = "!" then some [] else parseStrWord q) with
+      | some query =>
+        let (st', s) := mountObs st lookup query fmt body recorded
+        (st', idx ++ " " ++ s)
+      | none => (st, idx ++ " bad-op")
     | _, _, _, _ => (st, idx ++ " bad-op")
   | ["jp", idx, p] =>
     match parseStrWord p with
@@ -297,7 +308,7 @@ def step (st : St) (ws : List String) : St × String :=
     | some false => (st, idx ++ " NOT-member")
     | none => (st, idx ++ " bad-op")
   | name :: idx :: args =>
-    match parseOp (name :: args) with
+    match parseOp ((if name = "nregv" then "regv" else name) :: args) with
     | some (op, []) =>
       let (reg', r) := st.reg.apply recheck op
       ({ st with reg := reg' }, idx ++ " " ++ obs reg' r)
